@@ -278,6 +278,7 @@ pub fn exec_traced<'a>(ctx: &'a mut Ctx, sc: &'a Value, plan: &Value, tag: &str)
             ("TMPDIR".to_string(), root.join("sentinel-tmp").display().to_string()),
             ("HOME".to_string(), root.join("sentinel-home").display().to_string()),
             ("PATH".to_string(), "/usr/bin:/bin".to_string()),
+            ("CV_OP_TIMEOUT_S".to_string(), "900".to_string()),
         ];
         if let Err(e) = tracer.spawn(&worker_bin(&workers_dir, bin), &prog, &out, &root.join("sentinel-cwd"), &env) {
             sub.harness = Some(format!("cannot start traced worker: {e}"));
